@@ -125,7 +125,19 @@ def allowed_parent(child_kind: str, parent_kind: str) -> bool:
 def marker(layer_name: str, obj: J) -> str:
     if obj.get("twin"):
         return f"twin/{obj['cat']}/{obj['name']}"
+    if obj.get("ref"):
+        # a DIAG-COMM-REF: the object of the layer named there, local to this layer as well
+        return f"{obj['ref']}/{obj['cat']}/{obj['name']}"
     return f"{layer_name}/{obj['cat']}/{obj['name']}"
+
+
+def drop_dangling_refs(hier: J) -> None:
+    """DIAG-COMM-REFs whose target (layer or object) is gone go as well."""
+    have = {(l["name"], o["cat"], o["name"]) for l in hier["layers"] for o in l["objects"]
+            if not o.get("ref") and not o.get("twin")}
+    for l in hier["layers"]:
+        l["objects"] = [o for o in l["objects"]
+                        if not o.get("ref") or (o["ref"], o["cat"], o["name"]) in have]
 
 
 def _layer_index(hier: J, layer_name: str) -> int:
@@ -212,6 +224,7 @@ def prune(hier: J, remove: Iterable[str]) -> J:
                    if l["name"] not in rm]
     for l in h["layers"]:
         assert not any(p["layer"] in rm for p in l["parents"]), "remove set not closed"
+    drop_dangling_refs(h)
     return h
 
 
@@ -346,7 +359,10 @@ def emit_layer(hier: J, layer: J) -> str:
     if dcs:
         x += "<DIAG-COMMS>"
         for o in dcs:
-            if o["cat"] == "service":
+            if o.get("ref"):
+                x += (f'<DIAG-COMM-REF ID-REF={quoteattr(o["ref"] + ".JOB." + o["name"])} '
+                      f'DOCREF={quoteattr(o["ref"])} DOCTYPE="LAYER"/>')
+            elif o["cat"] == "service":
                 x += f'<DIAG-SERVICE ID={quoteattr(oid("SVC", o["name"]))}>' + \
                     _names(o["name"], marker(lname, o)) + \
                     f'<REQUEST-REF ID-REF={quoteattr(oid("RQ", o["name"]))}/></DIAG-SERVICE>'
